@@ -118,6 +118,11 @@ static HANDLES: std::sync::Mutex<Vec<(u64, Entity)>> = std::sync::Mutex::new(Vec
 /// Number of the dispatch in progress: a handle published during it denotes an entity that is alive until the `maintain`
 /// behind this dispatch (its deletion, if requested, is deferred).
 static EPOCH: AtomicU64 = AtomicU64::new(0);
+/// Set before every dispatch: the first lazy-holding system that runs takes it and queues a big burst.
+static BIG_LAZY: std::sync::atomic::AtomicBool = std::sync::atomic::AtomicBool::new(false);
+/// Watchdog: start time (ms since process start, +1) of the dispatch in progress, 0 when none is. A dispatch that does not
+/// return within `H_DISPATCH_LIMIT_MS` (default 60 s) ends the process with exit status 3 after printing what is known.
+static DISPATCH_SINCE: AtomicU64 = AtomicU64::new(0);
 
 impl<'a> Pick<'a> for EntM {
     type Data = Entities<'a>;
@@ -128,6 +133,9 @@ impl<'a> Pick<'a> for EntM {
         let a = d.create();
         let b = d.create();
         let _ = d.delete(b);
+        // ... and a burst of short-lived ones: systems of one stage pop the free list (refilled by every `maintain`) at the
+        // same time
+        for _ in 0..24 { let e = d.create(); let _ = d.delete(e); }
         { let ep = EPOCH.load(SeqCst); let mut h = HANDLES.lock().unwrap(); h.push((ep, a)); h.push((ep, b)); if h.len() > 64 { h.drain(..32); } }
         let n = d.join().count();
         let m = (&**d).par_join().count();
@@ -139,8 +147,11 @@ impl<'a> Pick<'a> for LazyM {
     // systems that hold the lazy-update resource really queue actions (several, so that systems of one stage push
     // at the same time); the queue is drained by `maintain` after every dispatch
     fn touch(d: &mut Self::Data) -> u32 {
-        for _ in 0..16 { d.exec(|_| {}); }
-        16
+        // (one system per dispatch queues several thousand actions: nothing drains the queue before the `maintain` behind
+        //  the dispatch, so queueing must never wait for room)
+        let n = if BIG_LAZY.swap(false, SeqCst) { 4500 } else { 16 };
+        for _ in 0..n { d.exec(|_| {}); }
+        n
     }
 }
 
@@ -494,7 +505,10 @@ fn run_graph(g: &Graph, world: &mut World, threads: usize, reps: usize, spin: u6
         for _ in 0..reps {
             for i in 0..n { sh.enter[i].store(0, SeqCst); sh.exit[i].store(0, SeqCst); }
             EPOCH.fetch_add(1, SeqCst);
+            BIG_LAZY.store(true, SeqCst);
+            DISPATCH_SINCE.store(now_ms() + 1, SeqCst);
             d.dispatch(world);
+            DISPATCH_SINCE.store(0, SeqCst);
             world.maintain();
             for (i, s) in g.specs.iter().enumerate() {
                 for dn in &s.deps {
@@ -626,8 +640,23 @@ fn read_cases(path: &str) -> Vec<(String, Vec<Line>)> {
     cases
 }
 
+fn now_ms() -> u64 {
+    static T0: std::sync::OnceLock<std::time::Instant> = std::sync::OnceLock::new();
+    T0.get_or_init(std::time::Instant::now).elapsed().as_millis() as u64
+}
+
 fn main() {
     std::panic::set_hook(Box::new(|_| {}));
+    let _ = now_ms();
+    let limit: u64 = std::env::var("H_DISPATCH_LIMIT_MS").ok().and_then(|s| s.parse().ok()).unwrap_or(60_000);
+    std::thread::spawn(move || loop {
+        std::thread::sleep(std::time::Duration::from_millis(500));
+        let since = DISPATCH_SINCE.load(SeqCst);
+        if since != 0 && now_ms() + 1 > since + limit {
+            eprintln!("h_dispatch: a dispatch did not return within {} ms (a system never finished: every system must run exactly once)", limit);
+            std::process::exit(3);
+        }
+    });
     let args: Vec<String> = std::env::args().collect();
     let mut out = String::new();
     out.push_str("domain dispatch\n");
